@@ -52,6 +52,13 @@ func (u *User) Read(p []byte) (int, error) {
 		u.Icon = u.Icon[2:]
 	}
 
+	// The icon field of the record is two bytes wide whatever the client put into its icon field (which may be
+	// absent or have an odd size): keep the low-order two bytes, left-padded with zeros.
+	if len(u.Icon) != 2 {
+		icon := append([]byte{0, 0}, u.Icon...)
+		u.Icon = icon[len(icon)-2:]
+	}
+
 	if len(u.Flags) == 4 {
 		u.Flags = u.Flags[2:]
 	}
